@@ -20,7 +20,7 @@ pub fn property() -> Property {
     Property {
         id: "C13",
         level: "fault_enumeration",
-        rule: "Real loopback sockets; peers are harness threads with scripted stalls. Stall point in {upload not read (8 MiB body), inside the status line, between header lines, after the blank line, after k body bytes (length / close framing), inside a chunk-size line, inside chunk data, before the terminal chunk, during the TLS handshake of a direct https dial, inside the CONNECT reply, inside the tunnel} x {silent stall, one byte every R/3} x timeouts {T=300 ms, T=150 ms, T=300 ms + R=100 ms, R=150 ms alone, T=0 (deadline already expired when the connection is made), T=20 s + R=150 ms (the read timeout must fire although an overall timeout is set), R=0 alone (boundary value: every stall is longer than it; the call ends with an error at once, it must not turn into 'no read timeout')} and redirect chains of fast hops that together exceed T. Oracle: (a) the call returns Err within T (or R) + 1.5 s although the peer would hold it for 20 s; (d) the first end-of-body signal is never Ok for a body the peer had not finished; (c) converse histories (T in {1.5 s, 10 s, 2^62 s, Duration::MAX}) - complete responses of every framing, read with loops of several buffer sizes plus up to 5 further reads after end-of-body spread over 200 ms - never see TimedOut (nor any error) before t0+T; (e) 250 ms after the response/error is dropped the process has no more threads or file descriptors than before the case. Hook H3 (schedule points in the watchdog thread and around the reader's end-of-stream ping) holds either thread at each label in turn (<= 400 ms) for the scenarios {genuine end of stream before the deadline, stall cut by the deadline} x {close-delimited, length-delimited}; the recorded label sequences are the distinct interleavings observed; 'stale watchdog' scenarios hold the watchdog of a finished, dropped request at wd.wake / wd.dropped / wd.shutdown while the NEXT request (T = 30 s) runs and release it in the middle of that body, which must arrive complete; 'retrying caller' scenarios (R = 150 ms < T): a caller that reads again after every read-timeout error is still cut at T + margin when the peer has gone silent, and still receives a response that resumes and completes before T. Resource fault 'fd-exhaustion': RLIMIT_NOFILE is lowered and the descriptor table filled so that k in {0,1,2,3} slots are free when the connection is made (k=1: the socket can be opened, the watchdog's own handle on it cannot) against a listener that never answers: the call still returns within T + margin. Load probe: a case whose 20 ms sleep oversleeps by > 150 ms is retried (x3) and then counted inconclusive, never as a violation. Non-trivial: every scenario; distinct = hash(scenario).",
+        rule: "Real loopback sockets; peers are harness threads with scripted stalls. Stall point in {upload not read (8 MiB body), inside the status line, between header lines, after the blank line, after k body bytes (length / close framing), inside a chunk-size line, inside chunk data, before the terminal chunk, during the TLS handshake of a direct https dial, inside the CONNECT reply, inside the tunnel} x {silent stall, one byte every R/3} x timeouts {T=300 ms, T=150 ms, T=300 ms + R=100 ms, R=150 ms alone, T=0 (deadline already expired when the connection is made), T=20 s + R=150 ms (the read timeout must fire although an overall timeout is set), R=0 alone (boundary value: every stall is longer than it; the call ends with an error at once, it must not turn into 'no read timeout')} and redirect chains of fast hops that together exceed T. 'peer-failures-before-deadline': hang-up or early 413 during a 16 MiB upload, reset after the request, close inside the head / inside the body, with T = 20 s / Duration::MAX / none: an error that comes seconds before the deadline is not of a timeout kind. Oracle: (a) the call returns Err within T (or R) + 1.5 s although the peer would hold it for 20 s; (d) the first end-of-body signal is never Ok for a body the peer had not finished; (c) converse histories (T in {1.5 s, 10 s, 2^62 s, Duration::MAX}) - complete responses of every framing, read with loops of several buffer sizes plus up to 5 further reads after end-of-body spread over 200 ms - never see TimedOut (nor any error) before t0+T; (e) 250 ms after the response/error is dropped the process has no more threads or file descriptors than before the case. Hook H3 (schedule points in the watchdog thread and around the reader's end-of-stream ping) holds either thread at each label in turn (<= 400 ms) for the scenarios {genuine end of stream before the deadline, stall cut by the deadline} x {close-delimited, length-delimited}; the recorded label sequences are the distinct interleavings observed; 'stale watchdog' scenarios hold the watchdog of a finished, dropped request at wd.wake / wd.dropped / wd.shutdown while the NEXT request (T = 30 s) runs and release it in the middle of that body, which must arrive complete; 'retrying caller' scenarios (R = 150 ms < T): a caller that reads again after every read-timeout error is still cut at T + margin when the peer has gone silent, and still receives a response that resumes and completes before T. Resource fault 'fd-exhaustion': RLIMIT_NOFILE is lowered and the descriptor table filled so that k in {0,1,2,3} slots are free when the connection is made (k=1: the socket can be opened, the watchdog's own handle on it cannot) against a listener that never answers: the call still returns within T + margin. Load probe: a case whose 20 ms sleep oversleeps by > 150 ms is retried (x3) and then counted inconclusive, never as a violation. Non-trivial: every scenario; distinct = hash(scenario).",
         assumptions: &["the connect phase is outside the statement and not judged", "Linux loopback; Windows branches are not run", "reads issued only after T has passed are not judged (the exchange as a whole exceeded T)"],
         min_nontrivial: |t| t.pick(60, 400),
         gens,
@@ -33,6 +33,7 @@ fn gens(tier: Tier) -> Vec<Gen> {
     vec![
         Gen { name: "stalls", count: stall_count(tier), exhaustive: tier == Tier::Thorough, run: run_stall },
         Gen { name: "converse", count: tier.pick(24, 400), exhaustive: false, run: run_converse },
+        Gen { name: "peer-failures-before-deadline", count: (5 * 3) as u64, exhaustive: true, run: run_peer_failures },
         Gen { name: "interleavings", count: (2 * 2 * 6) as u64, exhaustive: true, run: run_interleaving },
         Gen { name: "retrying-caller", count: (3 * 2 * 2) as u64, exhaustive: true, run: run_retrying_caller },
         Gen { name: "stale-watchdog", count: (3 * 2) as u64, exhaustive: true, run: run_stale_watchdog },
@@ -441,6 +442,67 @@ fn run_converse(ctx: &mut Ctx, rng: &mut Rng, index: u64) {
     ctx.nontrivial(format!("converse{index}{framing}{t_ms}{sizes:?}{extra}").as_bytes());
     let fname = ["length", "chunked", "close"][framing as usize];
     ctx.sample(|| json!({"framing": fname, "payload": payload.len(), "T_ms": t_ms, "further_reads": extra}));
+}
+
+/// failures that are not timeouts, with an overall timeout set and far away: the peer hangs up
+/// or resets while the request body is still being uploaded, refuses early with a 413 and hangs
+/// up, closes inside the response head or inside the body. "Only real timeouts are reported":
+/// whatever error the call ends with long before the deadline is not a timeout.
+fn run_peer_failures(ctx: &mut Ctx, _rng: &mut Rng, index: u64) {
+    let mode = index % 5;
+    let t_ms: Option<u64> = [Some(20_000), Some(u64::MAX), None][(index / 5 % 3) as usize];
+    let server: Server<()> = Server::spawn(move |mut s: TcpStream| {
+        match mode {
+            0 => {
+                // reads 1 KiB of the upload and hangs up (unread input => the kernel answers further data with RST)
+                let mut b = [0u8; 1024];
+                let _ = s.read(&mut b);
+            }
+            1 => {
+                let mut b = [0u8; 1024];
+                let _ = s.read(&mut b);
+                write_all_ignore(&mut s, b"HTTP/1.1 413 Too Large\r\nContent-Length: 0\r\nConnection: close\r\n\r\n");
+            }
+            2 => {
+                // SO_LINGER 0: the close is a reset
+                let _ = read_head(&mut s);
+                unsafe {
+                    let l = libc::linger { l_onoff: 1, l_linger: 0 };
+                    libc::setsockopt(std::os::fd::AsRawFd::as_raw_fd(&s), libc::SOL_SOCKET, libc::SO_LINGER, &l as *const _ as *const libc::c_void, std::mem::size_of::<libc::linger>() as u32);
+                }
+            }
+            3 => {
+                let _ = read_head(&mut s);
+                write_all_ignore(&mut s, b"HTTP/1.1 200 OK\r\nContent-Le");
+            }
+            _ => {
+                let _ = read_head(&mut s);
+                write_all_ignore(&mut s, b"HTTP/1.1 200 OK\r\nContent-Length: 100\r\n\r\nonly this much");
+            }
+        }
+    });
+    let body = if mode <= 1 { vec![0x55u8; 16 << 20] } else { b"x".to_vec() };
+    let mut rb = attohttpc::post(format!("http://127.0.0.1:{}/c13", server.port)).bytes(body).read_timeout(Duration::from_secs(15)).connect_timeout(Duration::from_secs(5));
+    if let Some(t) = t_ms {
+        rb = rb.timeout(if t == u64::MAX { Duration::MAX } else { Duration::from_millis(t) });
+    }
+    let r = call(rb);
+    drop(server);
+    let what = ["hang-up-during-upload", "early-413-then-hang-up", "reset-after-request", "close-inside-head", "close-inside-body"][mode as usize];
+    let descr = format!("peer: {what}; T={t_ms:?} ms, read timeout 15 s: the call ended after {:?} with {:?} ({} body bytes delivered, clean end: {})", r.elapsed, r.error, r.delivered.len(), r.clean_end);
+    ctx.count("peer_failures_before_the_deadline", 1);
+    if r.elapsed < Duration::from_secs(5) {
+        if r.timed_out_kind {
+            ctx.violation(format!("false-timeout:peer-failure:{what}"), descr);
+        } else if r.error.is_none() && mode >= 2 {
+            ctx.violation(format!("peer-failure-reported-as-success:{what}"), descr);
+        } else {
+            ctx.set_add("peer_failure_outcomes", format!("{what}: {}", r.error.as_deref().map(|e| e.chars().take(70).collect::<String>()).unwrap_or_else(|| "Ok".into())));
+        }
+    } else {
+        ctx.inconclusive(format!("a peer failure took {:?} to be noticed: {descr}", r.elapsed));
+    }
+    ctx.nontrivial(format!("pf{index}").as_bytes());
 }
 
 // ---- forced interleavings of watchdog and reader (hook H3) -----------------------------------------
